@@ -686,7 +686,7 @@ func runIntegrity(r *ev.Run) {
 
 // Tables under concurrency: operator proxy commands, agent callbacks and the relay
 // goroutine use the socket/proxy tables at the same time.
-func runTables(r *ev.Run, only int) {
+func runTables(r *ev.Run, only, shard, nshards int) {
 	bound := 1
 	if r.Thorough() {
 		bound = 2
@@ -721,7 +721,7 @@ func runTables(r *ev.Run, only int) {
 			dl = 12 * time.Minute
 		}
 		t := explore.Tree{Bound: bound, Deadline: time.Now().Add(dl)}
-		t.Run(func(c *explore.Chooser) {
+		t.RunShard(shard, nshards, func(c *explore.Chooser) {
 			se := newSess(c, 60000, "SocksCli", "SocksSvr", "Connected", "Conn")
 			defer se.close()
 			conn := fake.NewConn("client")
@@ -816,14 +816,14 @@ func runTables(r *ev.Run, only int) {
 			r.Violate("harness/nondeterminism", t.Err.Error(), nil)
 		}
 		if t.Capped {
-			r.NotExhaustive(fmt.Sprintf("table scenario %d stopped by the internal deadline after %d executions", si, t.Executions))
+			r.NotExhaustive(fmt.Sprintf("table scenario %d%s stopped by the internal deadline after %d executions", si, shardTag(shard, nshards), t.Executions))
 		}
 		exec += t.Executions
 		points += t.Points
 		for o := range outcomes {
 			r.Outcome(fmt.Sprintf("tables%d/%s", si, o))
 		}
-		r.Extra[fmt.Sprintf("tables_scenario_%d", si)] = map[string]any{"name": sc.name, "executions": t.Executions, "choice_points": t.Points}
+		r.Extra[fmt.Sprintf("tables_scenario_%d", si)+shardTag(shard, nshards)] = map[string]any{"name": sc.name, "executions": t.Executions, "choice_points": t.Points}
 	}
 	r.Eval(int(exec))
 	r.AddStates(points, points, exec)
@@ -866,6 +866,13 @@ func mutexesFree(a *agent.Agent) bool {
 	return ok
 }
 
+func shardTag(shard, n int) string {
+	if n <= 1 {
+		return ""
+	}
+	return fmt.Sprintf("/shard_%d_of_%d", shard, n)
+}
+
 func lockOf(why string) string {
 	for _, m := range []string{"SocksSvrMtx", "SocksCliMtx", "PortFwdsMtx", "JobsMtx"} {
 		if strings.Contains(why, m) {
@@ -901,29 +908,41 @@ func Run(r *ev.Run) {
 		r.Violate("harness/not-instrumented", "C15 needs the sched build", nil)
 		return
 	}
-	// ten work items (the two-handshakes scenario is split into four shards of its schedule tree), one worker process each (the net hooks and the
-	// teamserver globals are per process)
-	par.Run(r, 10, 25*time.Minute, func(i, n int, r *ev.Run) {
+	// work items, one worker process each (the net hooks and the teamserver globals are per
+	// process): conformance, integrity, and the schedule trees of the table scenarios, each
+	// tree split into shards (explore.Tree.RunShard) - 1 shard per classic scenario in quick
+	// and 4 in thorough, 4 for the two-handshakes scenario, 1 / 4 for the three-clients one
+	ts := 1
+	if r.Thorough() {
+		ts = 4
+	}
+	type item func(r *ev.Run)
+	items := []item{func(r *ev.Run) { runConformance(r) }, func(r *ev.Run) { runIntegrity(r) }}
+	for sc := 0; sc < 3; sc++ {
+		for k := 0; k < ts; k++ {
+			sc, k := sc, k
+			items = append(items, func(r *ev.Run) { runTables(r, sc, k, ts) })
+		}
+	}
+	for k := 0; k < ts; k++ {
+		k := k
+		items = append(items, func(r *ev.Run) { runTablesThreeClients(r, k, ts) })
+	}
+	for k := 0; k < 4; k++ {
+		k := k
+		items = append(items, func(r *ev.Run) { runTablesTwoHandshakes(r, k, 4) })
+	}
+	r.Bounds["work_items"] = len(items)
+	par.Run(r, len(items), 30*time.Minute, func(i, n int, r *ev.Run) {
 		if n == 1 {
 			runConformance(r)
 			runIntegrity(r)
-			runTables(r, -1)
-			runTablesThreeClients(r)
+			runTables(r, -1, 0, 1)
+			runTablesThreeClients(r, 0, 1)
 			runTablesTwoHandshakes(r, 0, 1)
 			return
 		}
-		switch i {
-		case 0:
-			runConformance(r)
-		case 1:
-			runIntegrity(r)
-		case 5:
-			runTablesThreeClients(r)
-		case 6, 7, 8, 9:
-			runTablesTwoHandshakes(r, i-6, 4)
-		default:
-			runTables(r, i-2)
-		}
+		items[i](r)
 	})
 	_ = seam.Quiet
 }
